@@ -223,7 +223,7 @@ func (w *worker) emit(cs *caseT) {
 	if why := expectReject(cs); why != "" {
 		r.Notes["rejection-expected"]++
 		if !rejectedStage(out.Stage) && cs.Peer != peerGone && !(cs.Reactor == "txpool" && cs.Peer != peerKnown) {
-			out.viol("invalid-accepted", "%s must be rejected (decode error or sending peer stopped) but the delivery ended at stage %q", why, out.Stage)
+			out.viol("invalid-accepted", "%s must be rejected (decode error, sending peer stopped, or no effect at all) but the delivery ended at stage %q", why, out.Stage)
 		}
 	}
 	r.Cases++
